@@ -1610,8 +1610,18 @@ impl<'comments> Formatter<'comments> {
 
         docs.push(self.operator_side(first, 5, first_precedence));
 
+        // NOTE: a comment cannot sit on the line of a one-line pipeline: with a comment before
+        // any stage, the pipeline is laid out one stage per line.
+        let mut one_liner = one_liner;
+
         for expr in expressions.iter().skip(1) {
-            let comments = self.pop_comments(expr.location().start);
+            let comments = self
+                .pop_comments(expr.location().start)
+                .collect::<Vec<_>>();
+
+            if !comments.is_empty() {
+                one_liner = false;
+            }
 
             let doc = match expr {
                 UntypedExpr::Fn {
